@@ -2,6 +2,7 @@
   CRProofs.XsdDocA — C03 whole-document validity, part A: points, shapes, values, times, positions, states, signal states.
 -/
 import CRProofs.XsdDoc
+import CRProofs.XsdEnumT
 
 namespace CR.C03
 open CR.Xsd CR.XmlNum CR.XmlW
@@ -367,9 +368,90 @@ theorem valid_state_gen {T : String} {es : List ElemP} (posT timeT valT : String
       simp only [h1, h2, Bool.false_or, beq_iff_eq] at hv
       rw [hty, hv]; exact h.2.2
 
+/-! #### xs:all membership is derived from the attribute set -/
+
+theorem nodup_map_of_subset {α β} [DecidableEq β] {f : α → β} {L : List α} (hL : (L.map f).Nodup) :
+    ∀ {l : List α}, l.Nodup → (∀ x ∈ l, x ∈ L) → (l.map f).Nodup
+  | [], _, _ => by simp
+  | x :: xs, hnd, hsub => by
+    rw [List.nodup_cons] at hnd
+    rw [List.map_cons, List.nodup_cons]
+    refine ⟨?_, nodup_map_of_subset hL hnd.2 (fun y hy => hsub y (List.mem_cons_of_mem _ hy))⟩
+    intro hm
+    obtain ⟨y, hy, hxy⟩ := List.mem_map.mp hm
+    have : y = x := nodup_map_inj hL (hsub y (List.mem_cons_of_mem _ hy)) (hsub x List.mem_cons_self) hxy
+    subst this; exact hnd.1 hy
+
+theorem attr_name_py (a : Attr) : a.name = xmlProp a.pyName := by
+  cases a <;> rfl
+
+/-- **the xs:all conditions of a state container follow from the attribute set**: if the used attributes are pairwise
+    different, position / time_step / attributes from `allowed`, and the required attributes are set, then the element names
+    are pairwise different, declared by the container type `T`, and the required elements are present — provided the table
+    facts hold (`xmlProp` is injective on the allowed attributes and maps them to declared elements; decided per container). -/
+theorem shape_of_attrs {T : String} {allowed reqPy : List String} {st : List Attr}
+    (t1 : (("position" :: "time_step" :: allowed).map xmlProp).Nodup)
+    (t2 : ∀ n ∈ "position" :: "time_step" :: allowed, xmlProp n ∈ (stateEs T).map (·.name))
+    (h : AttrSet reqPy st) (hin : ∀ a ∈ st, a.pyName ∈ "position" :: "time_step" :: allowed) :
+    StateShape T (reqPy.map xmlProp) st := by
+  have hn : st.map Attr.name = (st.map Attr.pyName).map xmlProp := by
+    rw [List.map_map]; apply List.map_congr_left; intro a _; exact attr_name_py a
+  refine ⟨?_, ?_, ?_⟩
+  · rw [hn]
+    exact nodup_map_of_subset t1 h.1 (by intro x hx; obtain ⟨a, ha, rfl⟩ := List.mem_map.mp hx; exact hin a ha)
+  · intro a ha; rw [attr_name_py]; exact t2 _ (hin a ha)
+  · intro r hr
+    obtain ⟨q, hq, rfl⟩ := List.mem_map.mp hr
+    rw [hn]; exact List.mem_map.mpr ⟨q, h.2 q hq, rfl⟩
+
+theorem pyName_in {allowed : List String} {st : List Attr} {P : Attr → Prop}
+    (h : ∀ a ∈ st, P a) (hv : ∀ n v, P (.value n v) → n ∈ allowed) : ∀ a ∈ st, a.pyName ∈ "position" :: "time_step" :: allowed := by
+  intro a ha
+  cases a with
+  | position q => simp [Attr.pyName]
+  | time t => simp [Attr.pyName]
+  | value n v => simp only [Attr.pyName]; exact List.mem_cons_of_mem _ (List.mem_cons_of_mem _ (hv n v (h _ ha)))
+
+theorem stateAttrs_t1 : (("position" :: "time_step" :: stateAttrs).map xmlProp).Nodup := by decide
+theorem stateAttrs_t2 (T : String) (hT : T = "state" ∨ T = "initialState") :
+    ∀ n ∈ "position" :: "time_step" :: stateAttrs, xmlProp n ∈ (stateEs T).map (·.name) := by
+  rcases hT with rfl | rfl <;> decide
+theorem stateAttrs_ne : ∀ n ∈ stateAttrs, xmlProp n ≠ "position" ∧ xmlProp n ≠ "time" := by decide
+theorem planningAttrs_facts : (("position" :: "time_step" :: planningAttrs).map xmlProp).Nodup ∧
+    (∀ n ∈ "position" :: "time_step" :: planningAttrs, xmlProp n ∈ (stateEs "initialStateExact").map (·.name)) ∧
+    (∀ n ∈ planningAttrs, xmlProp n ≠ "position" ∧ xmlProp n ≠ "time") := by decide
+theorem goalAttrs_facts : (("position" :: "time_step" :: goalAttrs).map xmlProp).Nodup ∧
+    (∀ n ∈ "position" :: "time_step" :: goalAttrs, xmlProp n ∈ (stateEs "goalState").map (·.name)) ∧
+    (∀ n ∈ goalAttrs, xmlProp n ≠ "position" ∧ xmlProp n ≠ "time") := by decide
+
+theorem state_shape {st : List Attr} (h : StateOk st) : StateShape "state" ["position", "orientation", "time"] st :=
+  shape_of_attrs (allowed := stateAttrs) stateAttrs_t1 (stateAttrs_t2 _ (Or.inl rfl)) h.1
+    (pyName_in (P := fun a => match a with
+      | .position q => PosOk q | .time t => TimeOk t | .value n v => n ∈ stateAttrs ∧ ValOk v) h.2 (fun _ _ hp => hp.1))
+
+theorem initialState_shape {st : List Attr} (h : InitialStateOk st) :
+    StateShape "initialState" ["position", "orientation", "time"] st :=
+  shape_of_attrs (allowed := stateAttrs) stateAttrs_t1 (stateAttrs_t2 _ (Or.inr rfl)) h.1
+    (pyName_in (P := fun a => match a with
+      | .position q => PosOk q | .time t => t = .exact 0 | .value n v => n ∈ stateAttrs ∧ ValOk v) h.2 (fun _ _ hp => hp.1))
+
+theorem planningInitialState_shape {st : List Attr} (h : PlanningInitialStateOk st) :
+    StateShape "initialStateExact" ["position", "velocity", "orientation", "yawRate", "slipAngle", "time"] st :=
+  shape_of_attrs (allowed := planningAttrs) planningAttrs_facts.1 planningAttrs_facts.2.1 h.1
+    (pyName_in (P := fun a => match a with
+      | .position q => ∃ pt, q = .point pt ∧ PtOk pt | .time t => t = .exact 0
+      | .value n v => n ∈ planningAttrs ∧ ∃ x, v = .exact x ∧ Fin x) h.2 (fun _ _ hp => hp.1))
+
+theorem goalState_shape {st : List Attr} (h : GoalStateOk st) : StateShape "goalState" ["time"] st :=
+  shape_of_attrs (allowed := goalAttrs) goalAttrs_facts.1 goalAttrs_facts.2.1 h.1
+    (pyName_in (P := fun a => match a with
+      | .position q => PosOk q ∧ ∀ pt, q ≠ .point pt | .time t => ∃ a b, t = .interval a b ∧ 0 ≤ a ∧ 1 ≤ b
+      | .value n v => n ∈ goalAttrs ∧ ∃ a b, v = .interval a b ∧ Fin a ∧ Fin b) h.2 (fun _ _ hp => hp.1))
+
 theorem valid_state (p : Nat) (tag : String) {st : List Attr} (h : StateOk st) :
     validNode schema "state" (stateNode p tag st) = true := by
-  obtain ⟨⟨hnd, hdecl, hreq⟩, hattr⟩ := h
+  obtain ⟨hnd, hdecl, hreq⟩ := state_shape h
+  have hattr := h.2
   refine valid_state_gen (es := stateEs "state") "position" "integerExactOrIntervalGreaterZero" "decimalExactOrInterval"
     ["position", "orientation", "time"] (by decide) (by decide) (by decide) (by decide) (by decide) (by decide) p tag st hnd hdecl hreq ?_
   intro a ha
@@ -377,11 +459,12 @@ theorem valid_state (p : Nat) (tag : String) {st : List Attr} (h : StateOk st) :
   cases a with
   | position q => exact valid_pos p this
   | time t => exact valid_time "time" this
-  | value n v => exact ⟨this.1, this.2.1, valid_val p _ this.2.2⟩
+  | value n v => exact ⟨(stateAttrs_ne n this.1).1, (stateAttrs_ne n this.1).2, valid_val p _ this.2⟩
 
 theorem valid_initialState (p : Nat) (tag : String) {st : List Attr} (h : InitialStateOk st) :
     validNode schema "initialState" (stateNode p tag st) = true := by
-  obtain ⟨⟨hnd, hdecl, hreq⟩, hattr⟩ := h
+  obtain ⟨hnd, hdecl, hreq⟩ := initialState_shape h
+  have hattr := h.2
   refine valid_state_gen (es := stateEs "initialState") "position" "integerExactZero" "decimalExactOrInterval"
     ["position", "orientation", "time"] (by decide) (by decide) (by decide) (by decide) (by decide) (by decide) p tag st hnd hdecl hreq ?_
   intro a ha
@@ -389,11 +472,12 @@ theorem valid_initialState (p : Nat) (tag : String) {st : List Attr} (h : Initia
   cases a with
   | position q => exact valid_pos p this
   | time t => simp only at this; subst this; exact valid_time_zero "time"
-  | value n v => exact ⟨this.1, this.2.1, valid_val p _ this.2.2⟩
+  | value n v => exact ⟨(stateAttrs_ne n this.1).1, (stateAttrs_ne n this.1).2, valid_val p _ this.2⟩
 
 theorem valid_planningInitialState (p : Nat) (tag : String) {st : List Attr} (h : PlanningInitialStateOk st) :
     validNode schema "initialStateExact" (stateNode p tag st) = true := by
-  obtain ⟨⟨hnd, hdecl, hreq⟩, hattr⟩ := h
+  obtain ⟨hnd, hdecl, hreq⟩ := planningInitialState_shape h
+  have hattr := h.2
   refine valid_state_gen (es := stateEs "initialStateExact") "positionExact" "integerExactZero" "decimalExact"
     ["position", "velocity", "orientation", "yawRate", "slipAngle", "time"] (by decide) (by decide) (by decide) (by decide)
     (by decide) (by decide) p tag st hnd hdecl hreq ?_
@@ -402,11 +486,14 @@ theorem valid_planningInitialState (p : Nat) (tag : String) {st : List Attr} (h 
   cases a with
   | position q => obtain ⟨pt, rfl, hpt⟩ := this; exact valid_pos_exact p hpt
   | time t => simp only at this; subst this; exact valid_time_zero "time"
-  | value n v => obtain ⟨h1, h2, x, rfl, hx⟩ := this; exact ⟨h1, h2, valid_val_exact p _ hx⟩
+  | value n v =>
+    obtain ⟨h1, x, rfl, hx⟩ := this
+    exact ⟨(planningAttrs_facts.2.2 n h1).1, (planningAttrs_facts.2.2 n h1).2, valid_val_exact p _ hx⟩
 
 theorem valid_goalState (p : Nat) (tag : String) {st : List Attr} (h : GoalStateOk st) :
     validNode schema "goalState" (stateNode p tag st) = true := by
-  obtain ⟨⟨hnd, hdecl, hreq⟩, hattr⟩ := h
+  obtain ⟨hnd, hdecl, hreq⟩ := goalState_shape h
+  have hattr := h.2
   refine valid_state_gen (es := stateEs "goalState") "positionInterval" "integerIntervalGreaterZero" "decimalInterval"
     ["time"] (by decide) (by decide) (by decide) (by decide) (by decide) (by decide) p tag st hnd hdecl hreq ?_
   intro a ha
@@ -414,7 +501,9 @@ theorem valid_goalState (p : Nat) (tag : String) {st : List Attr} (h : GoalState
   cases a with
   | position q => exact valid_pos_goal p this.1 this.2
   | time t => obtain ⟨a, b, rfl, h1, h2⟩ := this; exact valid_time_goal "time" h1 h2
-  | value n v => obtain ⟨h1, h2, a, b, rfl, ha', hb'⟩ := this; exact ⟨h1, h2, valid_val_interval p _ ha' hb'⟩
+  | value n v =>
+    obtain ⟨h1, a, b, rfl, ha', hb'⟩ := this
+    exact ⟨(goalAttrs_facts.2.2 n h1).1, (goalAttrs_facts.2.2 n h1).2, valid_val_interval p _ ha' hb'⟩
 
 theorem name_stateNode (p : Nat) (tag : String) (st : List Attr) : (stateNode p tag st).name = tag := rfl
 
